@@ -1,6 +1,7 @@
 package main
 
 import (
+	"encoding/gob"
 	"fmt"
 	"os"
 	"os/exec"
@@ -245,4 +246,24 @@ func racePass(r *vf.Run) {
 			r.Inconclusive(fmt.Sprintf("race/checkptr pass ended with exit code %d: %s", res.Code, tail(res.Stderr, 300)))
 		}
 	}
+}
+
+// writeSpec / readSpec hand a case specification to a child process. gob, not JSON: dataset values and query
+// literals are arbitrary byte strings and JSON would replace invalid UTF-8 by U+FFFD on the way.
+func writeSpec(path string, v any) error {
+	f, err := os.Create(path)
+	if err != nil {
+		return err
+	}
+	defer f.Close()
+	return gob.NewEncoder(f).Encode(v)
+}
+
+func readSpec(path string, v any) error {
+	f, err := os.Open(path)
+	if err != nil {
+		return err
+	}
+	defer f.Close()
+	return gob.NewDecoder(f).Decode(v)
 }
